@@ -344,6 +344,7 @@ func init() {
 		p.Quick = []HRun{
 			{Entry: "HarnessC02Order", Bound: "Pos.IsBefore and ByErrorPosition.Less on every pair / triple of positions with full 64-bit line and column values: strict total order, mutually consistent", Require: []string{"compared"}},
 			{Entry: "HarnessC02MapOrder", Bound: "9 workflows x every function that ranges over a map of >= 2 entries (discovered by a recording run) x every iteration order of that function's maps", Require: []string{"compared", "several-diagnostics"}},
+			{Entry: "HarnessC14Routes", Bound: "which file is linted first decides whether a callee's interface is decoded from its file or written from its syntax tree: both routes give the same interface for every declaration of the family (945)", Require: []string{"compared"}},
 			{Entry: "HarnessC02WorkflowCall", Bound: "local reusable workflow with 3 required inputs and 3 required secrets, none supplied: all 36 orders", Require: []string{"compared"}},
 		}
 		p.Thorough = p.Quick
@@ -444,7 +445,7 @@ func init() {
 	// ---- C14 ----
 	{
 		p := &Prop{ID: "C14", Outside: []string{
-			"interfaces decoded from action.yml / reusable workflow files (`required && default == nil` via UnmarshalYAML + Node.Decode = reflection): not encodable; interfaces are given in memory here",
+			"interface files beyond the two declaration families of the file harnesses (yaml.v3's reflection-driven decoding is re-done over go/types by the engine and diffed against the real library on all 317 YAML files of testdata by `selftest`; bytes -> node is the native parser); in the other harnesses interfaces are given in memory",
 			"interface and call-site names longer than one letter in the small-interface harnesses; more than 3 declared / 3 supplied inputs",
 			"output names other than lower-case-letter strings (plus the characters of declared outputs at their positions)",
 			"the 154 outdated specs (they are rejected wholesale, not interface-checked)",
@@ -453,6 +454,8 @@ func init() {
 			{Entry: "HarnessC14Action", Bound: "checkAction on every interface of <= 3 inputs (symbolic letters, symbolic required flags) x every call site of <= 3 supplied keys", Require: []string{"checked"}},
 			{Entry: "HarnessC14Popular", Args: []int64{0, 1000}, Bound: "all 120 bundled action specs x a fully symbolic with: key of every length up to the longest declared name + 1 (all byte values)", Require: []string{"reported", "accepted", "skip-inputs"}},
 			{Entry: "HarnessC14Outputs", Args: []int64{0, 1000}, Bound: "steps.<id>.outputs.<X> for all bundled specs + github-script + an unknown action, X symbolic of every length up to the longest declared output + 1", Require: []string{"reported", "accepted", "dynamic"}},
+			{Entry: "HarnessC14Routes", Bound: "a reusable workflow's workflow_call declaration (input name in 3 spellings x required absent/true/false x default absent/''/text/number/bool/null/~ x type absent/string/number/boolean/other; a secret; an output): the interface decoded from the file equals the interface written from the syntax tree", Require: []string{"compared"}},
+			{Entry: "HarnessC14ActionFile", Bound: "a local action.yml (declared input in 3 spellings x required x default incl. null; one output) decoded by the repository's UnmarshalYAML methods, against call sites supplying 5 key variants and reading 3 output names", Require: []string{"checked"}},
 			{Entry: "HarnessC14WorkflowCall", Bound: "local reusable workflow with one input (4 types, symbolic required) and one secret; with:/secrets: keys symbolic; 5 literal/expression values; secrets: inherit", Require: []string{"checked", "typed", "inherit"}},
 		}
 		p.Thorough = p.Quick
@@ -462,7 +465,7 @@ func init() {
 	// ---- C20 ----
 	{
 		p := &Prop{ID: "C20", Outside: []string{
-			"schedules of more goroutines than the schedule harness extracts (2 files x 1 run step, 1 CPU at quick; 2 x 2 and 3 x 1 at thorough); the per-goroutine event sequences are taken from one sequential run (thread modularity is assumed, not proved); sync primitives follow their documented contracts; the Go memory model / data races are not modelled",
+			"schedules of more goroutines than the schedule harness extracts (up to 3 files x 3 run steps on 2 CPUs at quick, 4 x 4 on 2-3 CPUs at thorough; shellcheck only); the per-goroutine event sequences are taken from one sequential run (thread modularity is assumed, not proved); sync primitives follow their documented contracts; the Go memory model / data races are not modelled",
 			"tool latency is modelled by the gap between the process-start and process-end events; native confirmation of a schedule violation uses a stand-in tool that stays alive for 0.3 s (3 files x NumCPU steps)",
 			"real tool processes in the symbolic runs (os/exec is replaced by a stub with symbolic outcomes; native replay uses /bin/sh as a stand-in tool); pipe and write failures cannot be replayed natively",
 			"scripts longer than the bound; shellcheck issue fields other than line/column; pyflakes message text beyond 2 bytes per record",
@@ -475,14 +478,19 @@ func init() {
 			HRun{Entry: "HarnessC20Shellcheck", Bound: "tool error x non-JSON output x 0..3 issues with 64-bit symbolic line/column", Require: []string{"callback", "fatal"}},
 			HRun{Entry: "HarnessC20Pyflakes", Args: []int64{2}, Bound: "2 records with symbolic text, line terminator in {LF, CRLF, none}, optional junk lines", Require: []string{"callback", "unterminated"}},
 			HRun{Entry: "HarnessC20Shell", Bound: "shell at step / job default / workflow default in 7 spellings each x Linux / Windows runner (686 combinations)", Require: []string{"linted"}},
-			HRun{Entry: "HarnessC20Schedule", Args: []int64{2, 1, 1}, Bound: "LintFiles on 2 files x 1 run step, 1 CPU: every interleaving of the 5 goroutines' 29 sync events (13 atomic blocks after Lipton reduction): process bound, all collected before return, no deadlock", Require: []string{"linted", "complete-schedule-exists"}},
+			HRun{Entry: "HarnessC20Schedule", Args: []int64{2, 1, 1, 0}, Bound: "LintFiles on 2 files x 1 run step, 1 CPU: every interleaving of the 5 goroutines (29 sync events, 13 atomic blocks after Lipton reduction), partial-order encoding: process bound, all collected before return, no deadlock", Require: []string{"linted", "complete-schedule-exists"}},
+			HRun{Entry: "HarnessC20Schedule", Args: []int64{2, 1, 1, 1}, Bound: "the same instance in the step-indexed encoding (cross-encoding diff)", Require: []string{"linted", "complete-schedule-exists"}},
+			HRun{Entry: "HarnessC20Schedule", Args: []int64{2, 2, 1, 0}, Bound: "2 files x 2 steps, 1 CPU: 7 goroutines, 45 events", Require: []string{"linted", "complete-schedule-exists"}},
+			HRun{Entry: "HarnessC20Schedule", Args: []int64{3, 2, 1, 0}, Bound: "3 files x 2 steps, 1 CPU: 10 goroutines, 66 events", Require: []string{"linted", "complete-schedule-exists"}},
+			HRun{Entry: "HarnessC20Schedule", Args: []int64{3, 3, 2, 0}, Bound: "3 files x 3 steps, 2 CPUs: 13 goroutines, 90 events", Require: []string{"linted", "complete-schedule-exists"}},
 		)
 		p.Thorough = append(append([]HRun{}, p.Quick...),
 			HRun{Entry: "HarnessC20Sanitize", Args: []int64{16}, Bound: "all scripts of length 16"},
 			HRun{Entry: "HarnessC20Sanitize", Args: []int64{20}, Bound: "all scripts of length 20"},
 			HRun{Entry: "HarnessC20Pyflakes", Args: []int64{3}, Bound: "3 records", Require: []string{"callback", "unterminated"}},
-			HRun{Entry: "HarnessC20Schedule", Args: []int64{3, 1, 1}, Bound: "3 files x 1 run step, 1 CPU: every interleaving of 7 goroutines", Require: []string{"linted", "complete-schedule-exists"}},
-			HRun{Entry: "HarnessC20Schedule", Args: []int64{2, 2, 1}, Bound: "2 files x 2 run steps, 1 CPU: every interleaving of 7 goroutines (19 atomic blocks)", Require: []string{"linted", "complete-schedule-exists"}},
+			HRun{Entry: "HarnessC20Schedule", Args: []int64{4, 4, 2, 0}, Bound: "4 files x 4 steps, 2 CPUs: 21 goroutines, 151 events (59 blocks)", Require: []string{"linted", "complete-schedule-exists"}},
+			HRun{Entry: "HarnessC20Schedule", Args: []int64{4, 4, 3, 0}, Bound: "4 files x 4 steps, 3 CPUs", Require: []string{"linted", "complete-schedule-exists"}},
+			HRun{Entry: "HarnessC20Schedule", Args: []int64{2, 2, 1, 1}, Bound: "2 files x 2 steps, 1 CPU in the step-indexed encoding", Require: []string{"linted", "complete-schedule-exists"}},
 		)
 		props["C20"] = p
 	}
